@@ -56,8 +56,8 @@ MixedClauses(e) ==
   LET ante == [C18_local |-> TRUE, C19_quiet |-> TRUE]
   IN [ante |-> ante, holds |-> [
    C18_local |-> IF e.variant = "unchecked-root"
-                 THEN e.rootok /\ ~e.ownok /\ ~e.addok /\ e.outw = e.insw
-                 ELSE e.rootok /\ e.addok /\ e.outw = e.insw,
+                 THEN e.rootok /\ e.rooticok /\ ~e.ownok /\ ~e.addok /\ e.outw = e.insw
+                 ELSE e.rootok /\ e.rooticok /\ e.addok /\ e.outw = e.insw,    \* rooticok: to_string(intelligent_choice=True) of the root
    C19_quiet |-> Quiet(e.res) ]]
 
 TripClauses(e) ==
